@@ -1,13 +1,83 @@
-(* C09 Results do not depend on how the input reader delivers its bytes.  Statements only. *)
+(* C09 Results do not depend on how the input reader delivers its bytes.  Statements only; proofs
+   in Proofs/Chunk*.v.
+
+   Full statement (per component K of the reader stack WrapEncoding -> StripBOM -> {replacing
+   readers} -> {line reader | delimiter scanner}):
+     forall cs cs', concat cs = concat cs' -> (no 100 consecutive empty chunks in cs, cs') ->
+       output K cs = output K cs'
+   shown as  output K cs = F_K (concat cs)  for the pure functions F_K of Model/Chunk.v
+   (a_strip_bom, a_read_lines, a_replace1, a_decode).
+   Proved below: the source itself, StripBOM, bufio.Reader fill/ReadRune/ReadSlice/ReadLine,
+   ios.ByteReadLine, the line loop, and their composition (the stack of both fixed-length formats)
+   -- for every buffer size >= 4, every chunking, every tail (EOF or faults), EOF/fault delivered
+   with or after the last bytes.  The line-reader theorems carry the guard that the pure function
+   is defined (a_read_lines ... = Ok _), which excludes exactly the inputs of known finding F22
+   (lines_chunk_refuted).  NOT proved here (model + correspondence only): BytesReplacingReader,
+   the delimiter scanner, the charmap decoder (brr_read, scan, dec_read of Model/Chunk.v are
+   compared with the real code on every run); encoding/csv|json|xml are assumed chunk-invariant. *)
 From Coq Require Import List NArith Bool Arith.
+From Coq.Strings Require Import Byte.
 Import ListNotations.
-From OV Require Import Base.Bytes Model.Chunk Proofs.Chunk.
+From OV Require Import Base.Bytes Model.Chunk Proofs.Chunk Proofs.ChunkLines Proofs.ChunkBom Proofs.ChunkTop.
 
 (* A consumer that reads a source to the end with reads of any fixed positive size sees the same
-   bytes and the same final error under every chunking of the same bytes (any chunk sizes, empty
-   chunks, last chunk with or without the error, any tail). *)
+   bytes and the same final error under every chunking of the same bytes. *)
 Theorem drain_chunk_invariant : forall cap fuel fuel' cs cs' wl wl' t,
   0 < cap -> concat cs = concat cs' ->
   weight cs < fuel -> weight cs' < fuel' ->
   drain fuel cap (mkSrc cs wl t) = drain fuel' cap (mkSrc cs' wl' t).
 Proof. exact drain_chunk_invariant. Qed.
+
+(* A chunk source without 100 consecutive empty chunks meets the reader contract on which all
+   layer theorems rest (each layer is proved over ANY reader meeting it). *)
+Theorem source_reader_ok : reader_ok source io_read src_rep src_wt src_lead.
+Proof. exact source_reader_ok. Qed.
+
+(* ios.StripBOM over any chunking: fails (NewTransform error) for the same inputs with the same
+   error. *)
+Theorem stripbom_probe_chunk_invariant : forall N cs cs' wl wl' t,
+  4 <= N -> concat cs = concat cs' -> runs_ok cs = true -> runs_ok cs' = true ->
+  forall e, (exists s1, strip_bom source io_read N (mkSrc cs wl t) = Ok (inl e, s1)) <->
+            (exists s2, strip_bom source io_read N (mkSrc cs' wl' t) = Ok (inl e, s2)).
+Proof. exact stripbom_probe_chunk_invariant. Qed.
+
+(* The line reader (bufio.Reader + ios.ByteReadLine until the first error): every chunking of the
+   same bytes yields a_read_lines of the bytes. *)
+Theorem lines_chunk_invariant : forall N gas gas' fuel cs cs' wl wl' t res,
+  4 <= N -> concat cs = concat cs' ->
+  runs_ok cs = true -> runs_ok cs' = true ->
+  weight cs + 1 < gas -> weight cs' + 1 < gas' ->
+  a_read_lines N fuel (concat cs, t) = Ok res ->
+  read_lines source io_read N gas fuel b_init (mkSrc cs wl t) = Ok res /\
+  read_lines source io_read N gas' fuel b_init (mkSrc cs' wl' t) = Ok res.
+Proof. exact lines_chunk_invariant. Qed.
+
+(* Without the guard the statement is false of the faithful model (known finding F22, replayed
+   on the Go code from replays/corpus/C09/F22-lastline4096.json). *)
+Theorem lines_chunk_refuted :
+  exists N cs cs' wl wl' gas fuel,
+    concat cs = concat cs' /\ runs_ok cs = true /\ runs_ok cs' = true /\
+    read_lines source io_read N gas fuel b_init (mkSrc cs wl TEof) <>
+    read_lines source io_read N gas fuel b_init (mkSrc cs' wl' TEof).
+Proof. exact lines_chunk_refuted. Qed.
+
+(* Composition: StripBOM then the line reader (what both fixed-length formats run on). *)
+Theorem stack_lines_chunk_invariant : forall N gas gas' fuel cs cs' wl wl' t res,
+  4 <= N -> concat cs = concat cs' ->
+  runs_ok cs = true -> runs_ok cs' = true ->
+  weight cs + 1 < gas -> weight cs' + 1 < gas' ->
+  a_bom_lines N fuel (concat cs, t) = Ok res ->
+  bom_lines N gas fuel (mkSrc cs wl t) = Ok res /\
+  bom_lines N gas' fuel (mkSrc cs' wl' t) = Ok res.
+Proof. exact stack_lines_chunk_invariant. Qed.
+
+(* Non-vacuity: BOM + "ab\r\n" + a 9-byte line (longer than the 8-byte buffer) + "x", cut inside
+   the BOM, inside CR LF and with empty chunks, EOF with the last byte -- against one chunk. *)
+Example c09_nonvacuous :
+  let data := [xef; xbb; xbf; x61; x62; x0d; x0a; x31; x32; x33; x34; x35; x36; x37; x38; x39; x0a; x78] in
+  let cs := [[xef]; []; [xbb]; [xbf; x61; x62; x0d]; []; []; [x0a; x31; x32; x33; x34; x35; x36; x37];
+             [x38; x39; x0a]; [x78]] in
+  concat cs = data /\ runs_ok cs = true /\
+  a_bom_lines 8 10 (data, TEof) = Ok (inr ([[x61; x62]; [x31; x32; x33; x34; x35; x36; x37; x38; x39]; [x78]], IoEOF)) /\
+  bom_lines 8 60 10 (mkSrc cs true TEof) = bom_lines 8 60 10 (mkSrc [data] false TEof).
+Proof. vm_compute. repeat split; reflexivity. Qed.
